@@ -11,7 +11,7 @@
            src/tools.c:1523-1579     reb_murmur3_32 / reb_hash
            rebound/particles.py      index normalisation, slices
   The model is of the code that exists, not of what it should do.  The four places where
-  the current source departs from the documented behaviour (finding F4) are switchable by a
+  the current source departs from the documented behaviour (findings F4, F18) are switchable by a
   `Variant`, so that the same definitions describe the current source (`Variant.current`,
   all flags off) and the repaired one (`Variant.repaired`); the check determines on the real
   code which variant it is running against.
@@ -51,10 +51,12 @@ structure Variant where
   lastClamp : Bool
   /-- unsorted removal clamps `N_active` to the new `N` (F4d) -/
   unsortedClamp : Bool
+  /-- removing the last particle and `remove_all` delete the tree (`reb_tree_delete`) (F18) -/
+  resetTree : Bool
 deriving DecidableEq, Repr
 
-def Variant.current : Variant := ⟨false, false, false, false⟩
-def Variant.repaired : Variant := ⟨true, true, true, true⟩
+def Variant.current : Variant := ⟨false, false, false, false, false⟩
+def Variant.repaired : Variant := ⟨true, true, true, true, true⟩
 
 structure State where
   mem : List P            -- r->particles, all allocated slots
@@ -67,13 +69,15 @@ structure State where
   boxCfg : Bool           -- root_size != -1
   treeRoot : Bool         -- r->tree_root != NULL
   forceSorted : Bool      -- integrator is MERCURIUS or TRACE
-deriving Repr
+  staleLeaf : Bool        -- the tree still holds the leaf (pt = 0) of a particle removed by the N==1 shortcut
+deriving Repr, DecidableEq
 
 def State.nLookup (c : State) : Nat := c.lookup.length
 
 def State.init (treeCfg boxCfg forceSorted : Bool) : State :=
   { mem := [], nAlloc := 0, N := 0, nActive := -1, nVar := 0, lookup := [],
-    treeCfg := treeCfg, boxCfg := boxCfg, treeRoot := false, forceSorted := forceSorted }
+    treeCfg := treeCfg, boxCfg := boxCfg, treeRoot := false, forceSorted := forceSorted,
+    staleLeaf := false }
 
 /-- where the particle handed to `add` lies -/
 inductive Geo
@@ -87,6 +91,7 @@ inductive Out
   | errOutsideBoundary  -- "Particle outside of box boundaries. Did not add particle."
   | errNoBox            -- "root_size is -1. ..."
   | errOutsideTreeBox   -- "Cannot add particle outside of simulation box."
+  | errSameCoords       -- "Cannot add two particles with the same coordinates to the tree." (particle stored all the same)
   | removed             -- remove: return 1
   | lastRemoved         -- remove: return 1, warning "Last particle removed."
   | errRange            -- return 0, "Index %d passed to particles_remove was out of range"
@@ -125,6 +130,9 @@ def add (c : State) (p : P) (g : Geo) : State × Out :=
     if c.treeCfg then
       if !c.boxCfg then (c1, .errNoBox)
       else if g = .outsideTreeBox then (c1, .errOutsideTreeBox)
+      else if c.staleLeaf then
+        -- the tree's only leaf has pt = 0 = the slot just written: the new particle is compared with itself
+        ({ c1 with treeRoot := true, N := c.N + 1, staleLeaf := false }, .errSameCoords)
       else ({ c1 with treeRoot := true, N := c.N + 1 }, .ok)
     else ({ c1 with N := c.N + 1 }, .ok)
 
@@ -193,23 +201,25 @@ def rebuild (srt : Sorter) (c : State) : Option State :=
   | none => none
   | some t => some { c with lookup := srt.f t }
 
+/-- `reb_update_particle_lookup_table(r); p = reb_search_lookup_table(r, hash);` -/
+def lookupAgain (srt : Sorter) (c : State) (h : Nat) : State × Out :=
+  match rebuild srt c with
+  | none => (c, .fault)
+  | some c' =>
+    match search c'.lookup h c'.N with
+    | .hit i => (c', .found i)
+    | .miss => (c', .notFound)
+    | .fault => (c', .fault)
+
 /-- `reb_simulation_particle_by_hash` -/
 def particleByHash (srt : Sorter) (c : State) (h : Nat) : State × Out :=
-  let again : State × Out :=
-    match rebuild srt c with
-    | none => (c, .fault)
-    | some c' =>
-      match search c'.lookup h c'.N with
-      | .hit i => (c', .found i)
-      | .miss => (c', .notFound)
-      | .fault => (c', .fault)
   match search c.lookup h c.N with
   | .fault => (c, .fault)
-  | .miss => again
+  | .miss => lookupAgain srt c h
   | .hit i =>
     match c.mem[i]? with
     | none => (c, .fault)
-    | some p => if p.hash = h then (c, .found i) else again
+    | some p => if p.hash = h then (c, .found i) else lookupAgain srt c h
 
 /-! ## removal -/
 
@@ -223,42 +233,58 @@ def shiftLoop (mem : List P) (j : Nat) : Nat → Option (List P)
 
 def clampActive (na : Int) (n : Nat) : Int := if na > (n : Int) then (n : Int) else na
 
+/-- the `if (r->N==1){ r->N = 0; … return 1; }` shortcut (particle.c:403-410) -/
+def removeShortcut (v : Variant) (c : State) : State × Out :=
+  ({ c with N := 0, nActive := if v.lastClamp then clampActive c.nActive 0 else c.nActive,
+            treeRoot := if v.resetTree then false else c.treeRoot,
+            staleLeaf := if v.resetTree then false else (c.treeRoot || c.staleLeaf) }, .lastRemoved)
+
+/-- sorted path (particle.c:421-435): `N--`, `N_active` adjustment, shift loop, tree test -/
+def removeSorted (v : Variant) (c : State) (index : Int) : State × Out :=
+  if v.treeFirst && c.treeRoot then (c, .errTreeSorted) else
+  let n' := c.N - 1
+  let na' := if index < c.nActive then c.nActive - 1 else c.nActive
+  match shiftLoop c.mem index.toNat (n' - index.toNat) with
+  | none => (c, .fault)
+  | some m' =>
+    let c' := { c with mem := m', N := n', nActive := na' }
+    if c.treeRoot then (c', .errTreeSorted) else (c', .removed)
+
+/-- unsorted path (particle.c:436-448): flag for the tree, or move the last particle into the hole -/
+def removeUnsorted (v : Variant) (c : State) (index : Int) : State × Out :=
+  if c.treeRoot then
+    match c.mem[index.toNat]? with
+    | none => (c, .fault)
+    | some p => ({ c with mem := c.mem.set index.toNat { p with flagged := true } }, .removed)
+  else
+    let n' := c.N - 1
+    match c.mem[n']? with
+    | none => (c, .fault)
+    | some last =>
+      match writeAt c.mem index.toNat last with
+      | none => (c, .fault)
+      | some m' =>
+        ({ c with mem := m', N := n',
+                  nActive := if v.unsortedClamp then clampActive c.nActive n' else c.nActive }, .removed)
+
+/-- everything after the shortcut and the range check -/
+def removeRest (v : Variant) (c : State) (index : Int) (ks : Bool) : State × Out :=
+  if c.nVar ≠ 0 then (c, .errMegno)
+  else if ks then removeSorted v c index
+  else removeUnsorted v c index
+
+def rangeBad (c : State) (index : Int) : Bool := decide (index ≥ (c.N : Int)) || decide (index < 0)
+
 /-- `reb_simulation_remove_particle` (the MERCURIUS/TRACE prologue only forces
     `keep_sorted`; their private arrays are outside this model) -/
 def remove (v : Variant) (c : State) (index : Int) (keepSorted : Bool) : State × Out :=
   let ks := keepSorted || c.forceSorted
-  let rangeBad : Bool := decide (index ≥ (c.N : Int)) || decide (index < 0)
-  let shortcut : State × Out :=
-    ({ c with N := 0, nActive := if v.lastClamp then clampActive c.nActive 0 else c.nActive }, .lastRemoved)
-  let rest : State × Out :=
-    if c.nVar ≠ 0 then (c, .errMegno)
-    else if ks then
-      if v.treeFirst && c.treeRoot then (c, .errTreeSorted) else
-      let n' := c.N - 1
-      let na' := if index < c.nActive then c.nActive - 1 else c.nActive
-      match shiftLoop c.mem index.toNat (n' - index.toNat) with
-      | none => (c, .fault)
-      | some m' =>
-        let c' := { c with mem := m', N := n', nActive := na' }
-        if c.treeRoot then (c', .errTreeSorted) else (c', .removed)
-    else if c.treeRoot then
-      match c.mem[index.toNat]? with
-      | none => (c, .fault)
-      | some p => ({ c with mem := c.mem.set index.toNat { p with flagged := true } }, .removed)
-    else
-      let n' := c.N - 1
-      match c.mem[n']? with
-      | none => (c, .fault)
-      | some last =>
-        match writeAt c.mem index.toNat last with
-        | none => (c, .fault)
-        | some m' =>
-          ({ c with mem := m', N := n',
-                    nActive := if v.unsortedClamp then clampActive c.nActive n' else c.nActive }, .removed)
   if v.rangeFirst then
-    if rangeBad then (c, .errRange) else if c.N = 1 then shortcut else rest
+    if rangeBad c index then (c, .errRange)
+    else if c.N = 1 then removeShortcut v c else removeRest v c index ks
   else
-    if c.N = 1 then shortcut else if rangeBad then (c, .errRange) else rest
+    if c.N = 1 then removeShortcut v c
+    else if rangeBad c index then (c, .errRange) else removeRest v c index ks
 
 /-- `reb_simulation_remove_particle_by_hash` -/
 def removeByHash (v : Variant) (srt : Sorter) (c : State) (h : Nat) (keepSorted : Bool) : State × Out :=
@@ -268,8 +294,10 @@ def removeByHash (v : Variant) (srt : Sorter) (c : State) (h : Nat) (keepSorted 
   | (c', _) => (c', .fault)
 
 /-- `reb_simulation_remove_all_particles` (the lookup table is left as it is) -/
-def removeAll (c : State) : State × Out :=
-  ({ c with N := 0, nAlloc := 0, nActive := -1, nVar := 0, mem := [] }, .done)
+def removeAll (v : Variant) (c : State) : State × Out :=
+  ({ c with N := 0, nAlloc := 0, nActive := -1, nVar := 0, mem := [],
+            treeRoot := if v.resetTree then false else c.treeRoot,
+            staleLeaf := if v.resetTree then false else c.staleLeaf }, .done)
 
 /-- `sim.particles[idx].hash = h` -/
 def setHash (c : State) (idx h : Nat) : State × Out :=
@@ -300,7 +328,7 @@ def step (v : Variant) (srt : Sorter) (c : State) : Op → State × Out
   | .lookup h => particleByHash srt c h
   | .setHash i h => setHash c i h
   | .setActive k => setActive c k
-  | .removeAll => removeAll c
+  | .removeAll => removeAll v c
 
 /-- run a history; every operation comes with the `qsort` behaviour in force when it runs -/
 def run (v : Variant) : State → List (Sorter × Op) → State × List Out
@@ -320,7 +348,7 @@ structure Spec where
   boxCfg : Bool
   treeRoot : Bool
   forceSorted : Bool
-deriving Repr
+deriving Repr, DecidableEq
 
 def Spec.activeCount (s : Spec) : Option Nat := if s.active < 0 then none else some s.active.toNat
 
@@ -336,14 +364,9 @@ def Spec.add (s : Spec) (p : P) (g : Geo) : Spec × Out :=
     else ({ s with ps := s.ps ++ [p], treeRoot := true }, .ok)
   else ({ s with ps := s.ps ++ [p] }, .ok)
 
-/-- documented removal: invalid requests fail and change nothing; sorted removal erases one
-    element and decrements the active count if an active particle went; unsorted removal
-    moves the last element into the hole; the active count never exceeds the length. -/
-def Spec.remove (s : Spec) (index : Int) (keepSorted : Bool) : Spec × Out :=
-  let ks := keepSorted || s.forceSorted
-  if index < 0 ∨ index ≥ (s.ps.length : Int) then (s, .errRange)
-  else if s.ps.length = 1 then ({ s with ps := [], active := clampActive s.active 0 }, .lastRemoved)
-  else if s.nVar ≠ 0 then (s, .errMegno)
+/-- removal from a list of at least two, valid index -/
+def Spec.removeMany (s : Spec) (index : Int) (ks : Bool) : Spec × Out :=
+  if s.nVar ≠ 0 then (s, .errMegno)
   else if ks then
     if s.treeRoot then (s, .errTreeSorted)
     else ({ s with ps := s.ps.eraseIdx index.toNat,
@@ -357,6 +380,16 @@ def Spec.remove (s : Spec) (index : Int) (keepSorted : Bool) : Spec × Out :=
       ({ s with ps := (s.ps.set index.toNat last).dropLast,
                 active := clampActive s.active (s.ps.length - 1) }, .removed)
 
+/-- documented removal: invalid requests fail and change nothing; sorted removal erases one
+    element and decrements the active count if an active particle went; unsorted removal
+    moves the last element into the hole; the active count never exceeds the length;
+    removing the last particle also drops the tree. -/
+def Spec.remove (s : Spec) (index : Int) (keepSorted : Bool) : Spec × Out :=
+  if index < 0 ∨ index ≥ (s.ps.length : Int) then (s, .errRange)
+  else if s.ps.length = 1 then
+    ({ s with ps := [], active := clampActive s.active 0, treeRoot := false }, .lastRemoved)
+  else s.removeMany index (keepSorted || s.forceSorted)
+
 def Spec.setHash (s : Spec) (idx h : Nat) : Spec × Out :=
   if idx < s.ps.length then ({ s with ps := s.ps.modify idx (fun p => { p with hash := h }) }, .done)
   else (s, .errIndex)
@@ -365,7 +398,7 @@ def Spec.setActive (s : Spec) (k : Int) : Spec × Out :=
   if -1 ≤ k ∧ k ≤ (s.ps.length : Int) then ({ s with active := k }, .done) else (s, .errIndex)
 
 def Spec.removeAll (s : Spec) : Spec × Out :=
-  ({ s with ps := [], active := -1, nVar := 0 }, .done)
+  ({ s with ps := [], active := -1, nVar := 0, treeRoot := false }, .done)
 
 /-- lookup by hash is specified only up to the choice among equal hashes -/
 def Spec.LookupOK (s : Spec) (h : Nat) : Out → Prop
